@@ -273,7 +273,7 @@ func (c *Ctx) execOne(args []string, inExec bool) Exp {
 			return AnyErrIfTyped(c, keys, TList)
 		}
 		if strings.HasPrefix(args[len(args)-1], "-") {
-			return AnyErrIfTyped(c, keys, TList)
+			return negativeTimeout()
 		}
 		for _, k := range keys {
 			o := c.get(k)
@@ -295,6 +295,9 @@ func (c *Ctx) execOne(args []string, inExec bool) Exp {
 			if unspec {
 				return Unspecified("timeout form")
 			}
+			if ok {
+				return negativeTimeout()
+			}
 			return AnyErrIfTyped(c, args[1:3], TList)
 		}
 		return c.exec([]string{"lmove", args[1], args[2], args[3], args[4]})
@@ -306,6 +309,9 @@ func (c *Ctx) execOne(args []string, inExec bool) Exp {
 			if unspec {
 				return Unspecified("timeout form")
 			}
+			if ok {
+				return negativeTimeout()
+			}
 			return AnyErrIfTyped(c, args[1:3], TList)
 		}
 		return c.exec([]string{"rpoplpush", args[1], args[2]})
@@ -316,6 +322,9 @@ func (c *Ctx) execOne(args []string, inExec bool) Exp {
 		if _, ok, unspec := parseFloat(args[1]); !ok || unspec || strings.HasPrefix(args[1], "-") {
 			if unspec {
 				return Unspecified("timeout form")
+			}
+			if ok {
+				return negativeTimeout()
 			}
 			return AnyErr()
 		}
@@ -363,6 +372,10 @@ func ArgumentError(args []string) bool {
 }
 
 // RejectQueued undoes the queueing of the last command and marks the transaction as failed at queue time.
+// negativeTimeout: Redis rejects a negative timeout ("timeout is negative"); the emulator documents and tests it
+// as "poll once, do not block". No property covers negative timeouts, so the step is unspecified.
+func negativeTimeout() Exp { return Unspecified("negative timeout") }
+
 func (s *Session) RejectQueued() {
 	if s.InMulti && len(s.Queue) > 0 {
 		s.Queue = s.Queue[:len(s.Queue)-1]
